@@ -228,6 +228,26 @@ theorem gen_peak_heights_eq (n : Nat) (h : n < 2 ^ 64) : Loops.get_peak_heights 
     have hk := TF.Mmr.log2_lt_64 n (by omega) h
     rw [peak_heights_for_eq n _ 0 [] (by omega), List.nil_append, Nat.sub_zero, List.range_eq_range']
 
+theorem peak_heights_for_ok (lc : Nat) : ∀ cnt i acc, i + cnt ≤ 64 →
+    Loops.get_peak_heights_for_ok lc cnt i acc = true := by
+  intro cnt
+  induction cnt with
+  | zero => intros; rfl
+  | succ c ih =>
+    intro i acc hi
+    have h1 : i < 64 := by omega
+    simp only [Loops.get_peak_heights_for_ok, h1, decide_true, Bool.true_and]
+    exact ih (i + 1) _ (by omega)
+
+/-- no shift amount of the `for` loop of `get_peak_heights` is out of range: debug and release builds agree, every `u64` -/
+theorem gen_peak_heights_ok (n : Nat) (h : n < 2 ^ 64) : Loops.get_peak_heights_ok n = true := by
+  simp only [Loops.get_peak_heights_ok, beq_iff_eq]
+  by_cases h0 : n = 0
+  · simp only [h0, if_true]
+  · simp only [h0, if_false]
+    have hk := TF.Mmr.log2_lt_64 n (by omega) h
+    exact peak_heights_for_ok n _ 0 [] (by omega)
+
 /-! ### `node_indices_added_by_append` (a counting `while` loop in Rust, a `map` over a range in the hand model) -/
 
 /-- the right-lineage length computed by the (model of the) recursive function is below 64 for a `u64` argument:
